@@ -133,6 +133,8 @@ def dupsOk (journal : List JReq) (obs : Obs) (cfg : MCfg) (m : MDecl) : Bool :=
   ((logOf obs (expectedTP cfg m)).count m.key == rs.length)
 
 def holdsC01 (cfg : MCfg) (calls : List CDecl) (journal : List JReq) (obs : Obs) : Bool :=
+  -- every request reached the broker with the configured acks (≠ None) and options
+  obs.multi == 0 &&
   -- nil ⇒ everything acknowledged in the chosen partition; WriteErrors[i] = nil ⇔ message i acknowledged
   calls.all (fun c =>
     let r := retOf obs c.id
